@@ -99,6 +99,8 @@ func c12(c *Ctx) {
 	u.subprotocol()
 	u.compressAnnounce("C12.compress-announce")
 	u.noSplit()
+	r.Rule("C12.stateless", "the decision about one request depends on that request (and the Upgrader's configuration) alone: no package-level variable is written after initialisation, so no cache or counter carries anything from one handshake to the next (same rule as C11.globals)")
+	packageStateless(c, "C12.stateless")
 	r.Rule("C12.token-list", "tokenListContainsValue: every token is scanned after skipSpace, the comma test is made after skipSpace, and true is returned only when equalASCIIFold(scanned token, wanted value) held (necessary conditions for 'case-insensitively, anywhere in comma-separated lists with optional whitespace'; the full grammar is not decided)")
 	u.tokenListOWS("C12.token-list")
 	r.Rule("C12.quoted-pairs", "nextTokenOrQuoted (extension parameter values): the byte following a backslash recognised inside a quoted string is never inspected (necessary condition for quoted text not being parsed as further extension offers)")
